@@ -6,6 +6,7 @@
   decided against the real code by the correspondence run (finding F1 on the pinned tree: it is an absolute 1e-8).
 -/
 import AmiscProofs.InterpScale
+import AmiscProofs.TensorScale
 
 namespace Amisc.C17
 
@@ -25,6 +26,30 @@ theorem snapping_equivariant (a b tol x : Q) (ha : 0 < a) (grid : List Q) :
 theorem predict_factor_equivariant (a b tol x : Q) (ha : 0 < a) (grid ws : List Q) (j : Nat) :
     basis (a * tol) (a * x + b) (grid.map fun g => a * g + b) ws j = basis tol x grid ws j :=
   basis_affine a b tol x ha grid ws j
+
+/-- the first-derivative factor of `Lagrange.gradient` scales by `1/a` -/
+theorem gradient_factor_equivariant (a b tol x : Q) (ha : 0 < a) (grid ws : List Q) (j : Nat) (hj : j < grid.length) :
+    dBasis (a * tol) (a * x + b) (grid.map fun g => a * g + b) ws j = a⁻¹ * dBasis tol x grid ws j :=
+  dBasis_affine a b tol x ha grid ws j hj
+
+/-- the second-derivative factor of `Lagrange.hessian` scales by `1/a²` -/
+theorem hessian_factor_equivariant (a b tol x : Q) (ha : 0 < a) (grid ws : List Q) (j : Nat) (hj : j < grid.length) :
+    d2Basis (a * tol) (a * x + b) (grid.map fun g => a * g + b) ws j = a⁻¹ * a⁻¹ * d2Basis tol x grid ws j :=
+  d2Basis_affine a b tol x ha grid ws j hj
+
+open Amisc.TS in
+/-- **whole tensor term, per-dimension unit changes `x_d ↦ a_d x_d + b_d`** (coincidence tolerance 0): equal predictions at
+    mapped points, gradient entry `m` scaled by `1/a_m`, Hessian entry `(m,n)` by `1/(a_m a_n)` — any data, any output -/
+theorem term_equivariant (a b : ℕ → Q) (ha : ∀ d, 0 < a d) (st : LState) (x : List Q) (hd : st.grids.length = x.length)
+    (rows : List (List Q)) (o : ℕ) (ho : o < (rows.head?.map List.length).getD 0) :
+    (predictT 0 (mapState a b st) rows (mapPoint a b x)).getD o 0 = (predictT 0 st rows x).getD o 0 ∧
+    (∀ m, m < x.length →
+      (gradT 0 (mapState a b st) rows (mapPoint a b x) m).getD o 0 = (a m)⁻¹ * (gradT 0 st rows x m).getD o 0) ∧
+    (∀ m n, m < x.length → n < x.length →
+      (hessT 0 (mapState a b st) rows (mapPoint a b x) m n).getD o 0 =
+        (a m)⁻¹ * (a n)⁻¹ * (hessT 0 st rows x m n).getD o 0) :=
+  ⟨predictT_affine a b ha st x hd rows o ho, fun m hm => gradT_affine a b ha st x hd rows o ho m hm,
+   fun m n hm hn => hessT_affine a b ha st x hd rows o ho m n hm hn⟩
 
 /-! non-vacuity / executable instance: three nodes, width 1e-9 -/
 example : wtsInit ((1/1000000000 : Q) * (1/4)) ([0, 1, 1/2].map fun x => (1/1000000000 : Q) * x + 7) =
